@@ -18,7 +18,7 @@ for pid in sorted(meta):
         "quick_cmd": "/verif/bin/check %s --tier quick" % pid,
         "thorough_cmd": "/verif/bin/check %s --tier thorough" % pid,
         "evidence_file": "/verif/evidence/%s.json" % pid,
-        "replay_cmd_template": "cat {path}",
+        "replay_cmd_template": "replay/run_replay.sh {path}",
         "engine": "govc",
         "level_claimed": {"category": m.get("level", "proof"), "text": m["level_text"], "design_ref": m.get("design_ref", "DESIGN.md section 3")},
         "level_note": m["level_note"],
